@@ -12,7 +12,7 @@
 (***************************************************************************)
 EXTENDS Integers, Sequences, TLC, Json
 
-Sels     == {"cols", "aliases", "aggs", "aggs2"}
+Sels     == {"cols", "aliases", "aggs", "aggs2", "index"}      \* index: chained subscripts / map keys / nested paths as select items
 Wheres   == {"none", "cmp", "kwlit", "andor"}
 Windows  == {"none", "tumbling", "sliding", "counting", "session", "global"}
 Havings  == {"none", "alias", "agg"}
@@ -30,7 +30,7 @@ WellFormed ==
   /\ (having # "none" => Agg(sel))
   /\ (with # "none" => win \in {"tumbling", "sliding", "session"})
   /\ (order # "none" => Agg(sel))
-  /\ (join # "none" => sel \in {"cols", "aliases"})
+  /\ (join # "none" => sel \in {"cols", "aliases", "index"})
   /\ (distinct => sel # "aggs2")
   /\ (win = "global" => having = "none" /\ order = "none")
   /\ (win \in {"none", "global"} => gbl = "kw")
